@@ -100,10 +100,10 @@ BIG32_RULE = (" | 2^24 boundary (engine big32): on 32-bit targets texts of 2^24-
 def big32_jobs(tier, seed):
     quick = tier == "quick"
     jobs = []
-    for fl, label, nq, nt in (("miri-i686", "miri-i686(2^24 boundary)", 2, 8), ("miri-i686-rel", "miri-i686-release(2^24 boundary)", 1, 4),
+    for fl, label, nq, nt in (("miri-i686", "miri-i686(2^24 boundary)", 2, 8), ("miri-i686-rel", "miri-i686-release(2^24 boundary)", 2, 4),
                               ("miri-be32", "miri-armeb-be32(2^24 boundary)", 2, 8)):
         for i in range(nq if quick else nt):
-            jobs.append(eng(fl, "big32", ["--cases", 7, "--steps", 30 if quick else 80, "--first-case", 7 * i + (14 if fl.endswith("-rel") else 0), "--refuse-over", 1 << 28], 1, seed + 70 + i,
+            jobs.append(eng(fl, "big32", ["--cases", 7, "--steps", 30 if quick else 80, "--first-case", 7 * i + (14 if fl.endswith("-rel") else 0), "--refuse-over", 1 << 28] + (["--kinds", "4,6,4,0,4,5,3"] if fl.endswith("-rel") else []), 1, seed + 70 + i,
                             weight=10, timeout=1500 if quick else 7200, label=label))
     jobs.append(eng("native-rel", "big32", ["--shim", "shadow", "--cases", 28 if quick else 700, "--steps", 60], 2, seed + 75, weight=3, label="native-rel(2^24 boundary)"))
     return jobs
